@@ -63,7 +63,7 @@ PROPS = {
                   simulate=dict(quick="num=1500", thorough="num=25000", depth=80)),
              dict(module="Gen_Edns", cfg="Gen_Edns.cfg", out="edns_cases.ndjson")],
         topic="edns",
-        rules=["NoPanic", "BuildOk", "PlainCanonical", "RoundTrip", "ParseEqRef", "MustAccept", "CompOpt"],
+        rules=["NoPanic", "BuildOk", "PlainCanonical", "RoundTrip", "ParseEqRef", "MustAccept", "CompOpt", "ApiStep"],
         shards=12,
     ),
     "C06": dict(
@@ -432,7 +432,7 @@ EXTRA = {
     "C13": "Sampled on real sockets (RespRun): the real SimpleMdnsResponder (sync and tokio) serving seven records answers twelve queries (QU / non-QU, one and two questions, ANY / SRV / TXT / A / AAAA, classes IN / CH / ANY, a name nobody owns) sent over the loopback multicast group; every reply seen at a plain socket (unicast) or at a socket joined to the group (multicast) must satisfy the reply bounds, carry the query id and QR, and have gone to the querier iff some question asked for unicast; a query that must be answered must be seen answered in at least one of the attempts (E2EReplied). In addition to the random histories, a bounded-exhaustive matrix: every record of the catalogue (incl. MB/MG/MR/MX/MINFO) registered alone x every supported QTYPE and IXFR/AXFR/MAILB/MAILA/ANY x QCLASS {IN, CH, ANY}, asked at the record's own name and at its parent.",
     "C14": "The discovery-listener pipeline runs without a notification channel, with a live one (drained by the application) and with one whose receiver was dropped, sync and tokio; the usability probe after every datagram does what get_known_services() does (from_records over the cached records); hostile labels cover every alignment of character boundaries (0..3 ASCII bytes followed by invalid, 2-byte and 4-byte units). Sampled on real sockets (NetRun): sync and tokio responder and discovery services answer a probe before the hostile burst and must still answer after it (a fresh control responder tells a dead loop from a dead network); the one-shot resolver keeps resolving (an answered name, an unanswered name, address-and-port of an unanswered service) during the whole burst, which includes responses with id 0 owned by the names it asks for with empty, truncated and mistyped RDATA; any panic on a library thread is a violation.",
     "C15": "Protocol level: Discovery.tla (one action per implementation step of ServiceDiscovery, sync and tokio flavours; MC_Discovery, MC_DiscoveryAsync, MC_DiscoveryLossy) model-checks NeverPartial, NothingForeign, Prompt and Stable. Sampled on real sockets (E2E): 2-3 real ServiceDiscovery peers (sync, then tokio) advertise random instances of a unique service on the loopback multicast group; every sample of every peer's get_known_services() must consist of exactly the instances other running peers advertise (DiscoverExact, every observation), and within two seconds every running peer must list every other one and keep doing so after a third one left, in at least one of the attempts (E2EDiscovered).",
-    "C09": "The EDNS data and the 12-bit response code must also survive the compressing serialiser: the reference decoder applied to build_bytes_vec_compressed of every OPT-carrying packet of the builder machine finds the same OPT data and rcode (CompOpt), whatever else the message holds (e.g. a non-empty authority section).",
+    "C09": "The EDNS data and the 12-bit response code must also survive the compressing serialiser: the reference decoder applied to build_bytes_vec_compressed of every OPT-carrying packet of the builder machine finds the same OPT data and rcode (CompOpt), whatever else the message holds (e.g. a non-empty authority section). The builder histories of Gen_Packet (starting from constructors and from received messages with and without OPT, then SetRcode / SetOpt / ClearOpt / flags) are replayed here too: the state after every call matches the builder model (ApiStep) and what is finally written parses back to the packet the history describes (RoundTrip) -- the response code is split from what the packet holds now, not from what was received.",
     "C17": "The alphabet includes space and newline (whitespace at the ends of a text must not be trimmed away).",
     "C18": "Opaque records are tried with five payloads (arbitrary bytes and bytes shaped like a character-string, a name, an address); a message whose record of an unknown type the library rejects is itself reported.",
     "C20": "Every other received record of a history crosses the wire in a compressed response and enters the store through the discovery listener's own ingest function (owned copies) instead of the store API. Protocol level: Discovery.tla model-checks that an ingested goodbye removes the peer from view one second later (GoodbyeHonoured) and refutes the keep-the-later-expiry design. Sampled on real sockets (E2E): 2-3 real sync ServiceDiscovery peers find each other, one calls remove_service_from_discovery, and it must be gone from the others' get_known_services() three seconds later in at least one of the attempts (E2EGoodbye).",
